@@ -219,6 +219,16 @@ func (b *Blob) Set(src blob.Blob, destStart int64) (n int, err error) {
 		return 0, fmt.Errorf("Offset out of bounds: %d", destStart)
 	}
 
+	if destStart > int64(b.Len()) {
+		return 0, fmt.Errorf("Offset out of bounds: %d", destStart)
+	}
+	if room := int64(b.Len()) - destStart; int64(src.Len()) > room {
+		// like copy(): only as much as fits (the typed array's set() throws instead)
+		src, err = blob.View(src, 0, room)
+		if err != nil {
+			return 0, err
+		}
+	}
 	bValue := safejs.Safe(b.JSValue())
 	srcValue := safejs.Safe(FromBlob(src).JSValue())
 	_, err = bValue.Call("set", srcValue, destStart)
